@@ -756,7 +756,7 @@ static void doSplit(const vj::Value& act) {
       nullterm = true;   // reading argv[argc] must be legal; ASan reports it otherwise
       nullterm = as2a.mpArgV[as2a.mArgC] == nullptr;
    } catch (const std::exception&) { out = "err"; }
-   vj::Line().str("e", "Split").raw("cmd", codes(cmd)).boolean("withprog", withProg).raw("prog", codes(prog)).str("out", out)
+   vj::Line().str("e", "Split").boolean("raw", act["raw"].boolean()).raw("cmd", codes(cmd)).boolean("withprog", withProg).raw("prog", codes(prog)).str("out", out)
       .raw("words", words).num("argc", argc).boolean("nullterm", nullterm).raw("prog0", codes(prog0)).emit();
 }
 
